@@ -162,6 +162,10 @@ class DirectoryResourcePopulator:
                 relpath = pt.relpath(full_file_path, root)
                 resource_string = pt.normpath(relpath).replace(
                     pt.sep, ResourceMap.split_char)
+                # The root itself (a rule for '' or '.') is the map
+                # being populated, not one of its submaps
+                if resource_string == pt.curdir:
+                    continue
                 # Optionally trim extensions from files
                 if trim_extensions and pt.isfile(full_file_path):
                     resource_string = pt.splitext(resource_string)[0]
